@@ -73,6 +73,7 @@ type variant struct {
 	Owner    bool   `json:"owner"`    // trie2: contract-storage trie (owner-prefixed keys) instead of the class trie
 	Sweep    bool   `json:"sweep"`    // Get every model key on trie2 after every step (resolves everything)
 	ValSeed  int64  `json:"valSeed"`
+	Poison   bool   `json:"poison"` // run on the poisoning store (lent Get buffers are scribbled after the callback)
 }
 
 type trieInput struct {
@@ -132,7 +133,7 @@ func smallVariant(h int, i int64) variant {
 	for j := range pos {
 		pos[j] = j
 	}
-	return variant{Height: h, Pos: pos, Pad: "0", Poseidon: i%2 == 1, Flush: i%4 >= 2, Owner: i%3 == 0, Sweep: i%2 == 0, ValSeed: i}
+	return variant{Height: h, Pos: pos, Pad: "0", Poseidon: i%2 == 1, Flush: i%4 >= 2, Owner: i%3 == 0, Sweep: i%2 == 0, ValSeed: i, Poison: i%3 == 1}
 }
 
 // embedVariant spreads the h model bits over 251 real bits: every model bit is followed by a run of
@@ -168,17 +169,23 @@ func embedVariant(h int, r *rand.Rand, i int64) variant {
 		p += 1 + runs[j+1]
 	}
 	pad := new(big.Int).Rand(r, new(big.Int).Lsh(big.NewInt(1), height))
+	switch r.Intn(6) { // extreme key shapes: all padding zero (keys near 0) / all ones (keys near 2^251-1)
+	case 0:
+		pad = new(big.Int)
+	case 1:
+		pad = new(big.Int).Sub(new(big.Int).Lsh(big.NewInt(1), height), big.NewInt(1))
+	}
 	for _, q := range pos {
 		pad.SetBit(pad, height-1-q, 0)
 	}
 	return variant{Height: height, Pos: pos, Pad: pad.String(), Poseidon: i%2 == 1, Flush: i%4 >= 2, Owner: i%3 == 0,
-		Sweep: r.Intn(2) == 0, ValSeed: i}
+		Sweep: r.Intn(2) == 0, ValSeed: i, Poison: r.Intn(3) == 0}
 }
 
 // ------------------------------------------------------------------ drivers for the two real tries
 
 type legacyDrv struct {
-	store  *memory.Database
+	store  db.KeyValueStore
 	txn    db.IndexedBatch
 	tr     *trie.Trie
 	prefix []byte
@@ -186,9 +193,16 @@ type legacyDrv struct {
 }
 
 func newLegacy(v *variant) (*legacyDrv, error) {
-	d := &legacyDrv{store: memory.New(), prefix: []byte{0x42, 0x07}, v: v}
+	d := &legacyDrv{store: newStore(v), prefix: []byte{0x42, 0x07}, v: v}
 	d.txn = d.store.NewIndexedBatch()
 	return d, d.open()
+}
+
+func newStore(v *variant) db.KeyValueStore {
+	if v.Poison {
+		return newPoisonStore(memory.New())
+	}
+	return memory.New()
 }
 
 func (d *legacyDrv) open() (err error) {
@@ -200,9 +214,9 @@ func (d *legacyDrv) open() (err error) {
 	return err
 }
 
-func (d *legacyDrv) put(k, val *felt.Felt) error         { _, err := d.tr.Put(k, val); return err }
-func (d *legacyDrv) get(k *felt.Felt) (felt.Felt, error) { return d.tr.Get(k) }
-func (d *legacyDrv) commit() (felt.Felt, error)          { return d.tr.Hash() }
+func (d *legacyDrv) put(k, val *felt.Felt) (*felt.Felt, error) { return d.tr.Put(k, val) }
+func (d *legacyDrv) get(k *felt.Felt) (felt.Felt, error)       { return d.tr.Get(k) }
+func (d *legacyDrv) commit() (felt.Felt, error)                { return d.tr.Hash() }
 func (d *legacyDrv) reopen() error {
 	if d.v.Flush {
 		if err := d.txn.Write(); err != nil {
@@ -267,7 +281,7 @@ func (d *legacyDrv) dump() (map[string]string, string, error) {
 }
 
 type t2Drv struct {
-	disk *memory.Database
+	disk db.KeyValueStore
 	tdb  *rawdb.Database
 	id   trieutils.TrieID
 	tr   *trie2.Trie
@@ -276,7 +290,7 @@ type t2Drv struct {
 }
 
 func newT2(v *variant) (*t2Drv, error) {
-	d := &t2Drv{disk: memory.New(), v: v}
+	d := &t2Drv{disk: newStore(v), v: v}
 	d.tdb = rawdb.New(d.disk)
 	comm := felt.StateRootHash(felt.One) // any non-zero commitment: the raw scheme ignores it
 	if v.Owner {
@@ -432,6 +446,12 @@ func sparsePaths(keys []string, prefix string, out map[string]bool) {
 
 // ------------------------------------------------------------------ the replayer
 
+type retainedFelt struct {
+	p    *felt.Felt
+	copy felt.Felt
+	step int
+}
+
 type replayOutcome struct {
 	key, what          string
 	step               int
@@ -498,6 +518,7 @@ func replayOne(kind string, h int, beh []step, v *variant, counts map[string]int
 	keys := allKeys(h)
 	lastPut := "none"
 	candidates, reported := map[string]bool{}, map[string]bool{}
+	var retained []retainedFelt
 	fail := func(si int, key, what string, exp, obs any) (*replayOutcome, int, []*replayOutcome) {
 		return &replayOutcome{key: key, what: what, step: si, expected: exp, observed: obs}, si, soft
 	}
@@ -538,8 +559,23 @@ func replayOne(kind string, h int, beh []step, v *variant, counts map[string]int
 			lastPut = putKind(model, s.A)
 			counts["put-"+lastPut]++
 			k, val := v.key(s.A.K), v.value(s.A.V)
-			if err := leg.put(k, val); err != nil {
+			oldv, err := leg.put(k, val)
+			if err != nil {
 				return fail(si, "trie-error:legacy:put-"+lastPut, "core/trie Put failed: "+err.Error(), nil, nil)
+			}
+			// Put hands back the previous value (nil for a no-op): checked now, and kept (with a copy) to see
+			// that it does not change under later calls (the node it came from goes back to a pool)
+			wantOld := "nil"
+			if lastPut != "zero-absent" {
+				wantOld = v.value(model[fmt.Sprint(s.A.K)]).String()
+			}
+			gotOld := "nil"
+			if oldv != nil {
+				gotOld = oldv.String()
+				retained = append(retained, retainedFelt{oldv, *oldv, si})
+			}
+			if gotOld != wantOld {
+				return fail(si, "trie-put-return:legacy:"+lastPut, "core/trie Put returned a wrong previous value", wantOld, gotOld)
 			}
 			if err := t2.put(k, val); err != nil {
 				return fail(si, "trie-error:trie2:put-"+lastPut, "core/trie2 Update failed: "+err.Error(), nil, nil)
@@ -724,6 +760,12 @@ func replayOne(kind string, h int, beh []step, v *variant, counts map[string]int
 			}
 		}
 	}
+	for _, rt := range retained {
+		if !rt.p.Equal(&rt.copy) {
+			return fail(rt.step, "trie-alias:legacy:put-old-value", "the previous value returned by core/trie Put changed under later calls (it aliases pooled storage)",
+				rt.copy.String(), rt.p.String())
+		}
+	}
 	return nil, len(beh), soft
 }
 
@@ -748,6 +790,7 @@ func TestTrieReplay(t *testing.T) {
 	}
 	out := vh.NewResult()
 	defer out.Write()
+	defer guard(out, "TestTrieReplay", nil)
 	counts := map[string]int{}
 	nb := 0
 	for bi, beh := range in.Behaviours {
@@ -760,7 +803,7 @@ func TestTrieReplay(t *testing.T) {
 			o, n, soft := replayOne(in.Kind, in.H, beh, &v, counts)
 			for _, so := range soft {
 				cut := min(so.step+1, len(beh))
-				out.Diverge(vh.Divergence{
+				diverge(out, vh.Divergence{
 					Key: so.key, What: so.what, Step: so.step, Expected: so.expected, Observed: so.observed,
 					Input: trieInput{Kind: in.Kind, H: in.H, Behaviours: [][]step{beh[:cut]}, Variants: []variant{v}},
 				})
@@ -777,7 +820,7 @@ func TestTrieReplay(t *testing.T) {
 				if cut > len(beh) {
 					cut = len(beh)
 				}
-				out.Diverge(vh.Divergence{
+				diverge(out, vh.Divergence{
 					Key: o.key, What: o.what, Step: o.step, Expected: o.expected, Observed: o.observed,
 					Input: trieInput{Kind: in.Kind, H: in.H, Behaviours: [][]step{beh[:cut]}, Variants: []variant{v}},
 				})
@@ -790,35 +833,4 @@ func TestTrieReplay(t *testing.T) {
 	if len(in.Behaviours) > 0 {
 		out.Sample(vh.J{"kind": in.Kind, "first_steps": in.Behaviours[0][:min(6, len(in.Behaviours[0]))]})
 	}
-}
-
-// TestTrie2OrphanProbe tells the driver whether the tree under test still has the value-delete
-// tracer defect (so that it generates behaviours from the model that describes THIS code).
-func TestTrie2OrphanProbe(t *testing.T) {
-	if !vh.Enabled() {
-		t.Skip("driver only")
-	}
-	out := vh.NewResult()
-	defer out.Write()
-	v := smallVariant(3, 1)
-	d, err := newT2(&v)
-	if err != nil {
-		t.Fatal(err)
-	}
-	f := func(x uint64) *felt.Felt { return felt.NewFromUint64[felt.Felt](x) }
-	_ = d.put(f(2), f(7))
-	_ = d.put(f(3), f(8))
-	if _, err := d.commit(); err != nil {
-		t.Fatal(err)
-	}
-	_ = d.put(f(2), f(0))
-	if _, err := d.commit(); err != nil {
-		t.Fatal(err)
-	}
-	got, err := d.dump()
-	if err != nil {
-		t.Fatal(err)
-	}
-	out.Stats["orphan"] = got["010"]
-	out.Done(1, 4)
 }
